@@ -18,7 +18,7 @@ import numpy as np
 
 from .. import linscore_model as lm
 from .. import traces
-from ..common import allclose, fr, pin_repo
+from ..common import allclose, fr, key, pin_repo
 
 SHAPES = [(1, 1), (2, 1), (1, 2), (2, 2)]
 DEV_INV = {"LS_OFFSET_IGNORED": "IsFormula", "LS_DIVIDE_BY_MODEL_VAR": "MachinesEqArrays",
@@ -50,7 +50,8 @@ def run(ck):
         else:
             dom = lm.domain(rng, c, d, n_ubm=6, n_models=10, n_tests=20, n_map=3, n_aff=3)
         r = lm.model_run(ck, "score-C%d-D%d" % (c, d), dom, coverage=not quick)
-        recs += [(rec, dom["affines"]) for rec in r.records]
+        # TLC's workers print in no fixed order: sort, so that sampling and the per-scenario draws depend on the seed only
+        recs += [(rec, dom["affines"]) for rec in sorted(r.records, key=key)]
     for dv in lm.DEVIATIONS:
         r = lm.model_run(ck, "deviation:" + dv, lm.dev_domain(2, 1), dev=[dv], invariants=[DEV_INV[dv]], export=False,
                          expect_violation=True)
